@@ -39,7 +39,73 @@ def _keyed_branch(fn):
     return None
 
 
+def _attribute_access_for_every_key(ctx):
+    """Index by attribute is part of the map interface for every key the table holds: in keyed mode __getattr__ looks
+    the name up; a path that refuses a name because of the *shape of the name* (a prefix, a character test) before the
+    lookup removes records from the attribute view that item access and iteration still show."""
+    from ..flowexpr import paths
+    what = "attribute access looks every name up among the keys; no name is refused for its shape"
+    fn = ctx.fn(PT, "ParameterTable.__getattr__")
+    pa = [a.arg for a in fn.args.args]
+    key = pa[1] if len(pa) > 1 else "key"
+    n = 0
+    for q in paths(fn):
+        n += 1
+        if not any(e.kind == "raise" for e in q.events):
+            continue
+        for e in q.events:
+            if e.kind != "test" or not isinstance(e.resolved, ast.AST):
+                continue
+            names = {norm(x) for x in ast.walk(e.resolved) if isinstance(x, (ast.Name, ast.Attribute))}
+            if key in names and not any(x.startswith("self.") for x in names):
+                ctx.violated(PT, "ParameterTable.__getattr__", what, detail=f"raises after the test `{norm(e.resolved)[:80]}` ({e.extra})", expected="self._data[key] for every key of a keyed table")
+                break
+    ctx.holds(PT, "ParameterTable.__getattr__", what, detail=f"{n} paths")
+
+
+def _constructor_rows_are_appended(ctx):
+    """Rows handed to the constructor are rows like any other: each goes through append(), which orders dict rows by
+    column name and creates the columns of an empty collector from the first dict.  Every read of the `rows`
+    parameter other than a test is the iterable of a loop whose body appends the loop variable."""
+    what = "rows given to the constructor are stored by append(), one by one"
+    fn = ctx.fn(RC, "RowCollector.__init__")
+    pa = [a.arg for a in fn.args.args]
+    rows = pa[2] if len(pa) > 2 else "rows"
+    tests = set()
+    for x in ast.walk(fn):
+        if isinstance(x, (ast.If, ast.While, ast.IfExp)):
+            tests |= {id(y) for y in ast.walk(x.test)}
+    loops = {}
+    for x in ast.walk(fn):
+        if isinstance(x, ast.For) and norm(x.iter) == rows:
+            loops[id(x.iter)] = x
+    n = 0
+    for x in ast.walk(fn):
+        if isinstance(x, ast.Name) and x.id == rows and isinstance(x.ctx, ast.Load) and id(x) not in tests:
+            n += 1
+            lp = loops.get(id(x))
+            if lp is None:
+                # positive evidence only: the statement that reads the rows stores into columns by other means
+                top = next((st for st in ast.walk(fn) if isinstance(st, ast.stmt) and not isinstance(st, (ast.FunctionDef, ast.If, ast.With, ast.Try))
+                            and any(y is x for y in ast.walk(st))), None)
+                other = [norm(c.func) for c in ast.walk(top) if isinstance(c, ast.Call) and isinstance(c.func, ast.Attribute)
+                         and c.func.attr in ("extend", "append", "insert", "concatenate", "__setitem__") and norm(c.func) != "self.append"] if top is not None else []
+                if other and not any(isinstance(c, ast.Call) and norm(c.func) == "self.append" for c in ast.walk(top)):
+                    ctx.violated(RC, "RowCollector.__init__", what, detail=f"`{rows}` is stored through {other[0]} (line {x.lineno}), not through append()", expected=f"for row in {rows}: self.append(row)")
+                else:
+                    ctx.unrecognised(RC, "RowCollector.__init__", what, f"`{rows}` read outside an append loop (line {x.lineno})")
+                continue
+            tv = norm(lp.target)
+            calls = [c for c in ast.walk(lp) if isinstance(c, ast.Call) and norm(c.func) == "self.append"]
+            if calls and all(len(c.args) == 1 and norm(c.args[0]) == tv for c in calls):
+                ctx.holds(RC, "RowCollector.__init__", what, detail=norm(calls[0]))
+            else:
+                ctx.unrecognised(RC, "RowCollector.__init__", what, "loop over the rows without self.append(<row>)")
+    ctx.floor("reads of the constructor's rows", n, 1)
+
+
 def r1_paired_fields(ctx):
+    _attribute_access_for_every_key(ctx)
     c = ctx.repo.cls(PT, "ParameterTable")
     writers = {}
     for name, fn in methods(c).items():
@@ -194,6 +260,7 @@ def r2_row_collector(ctx):
     """RowCollector on resolved iteration paths: in either storage mode one pass over the column list gives column n the
     n-th value of the row; sort() applies one index vector, computed once, to every column."""
     from ..model import cnorm
+    _constructor_rows_are_appended(ctx)
     ap = ctx.fn(RC, "RowCollector.append")
     for mode in (True, False):
         name = "array" if mode else "list"
